@@ -683,6 +683,19 @@ namespace {
       if (dump_all) std::cout << all << '\n';
    }
 
+   // First observation of every object discovered by the op just executed (returned, or reachable from what it returned):
+   // made at once, so that a change between the creation of a node and the next round is seen too.
+   void observe_new()
+   {
+      auto& ob = cx->ob;
+      for (std::size_t k = cx->prev.size(); k < ob.count(); ++k) {
+         auto o = ob.observe("n" + std::to_string(k));
+         out_impl.push_back("#O " + o.line());
+         cx->prev.push_back(o.fields);
+         cx->prev_kind.push_back(o.kind);
+      }
+   }
+
    // ------------------------------------------------------------------------------------------- one op
    void run_op(const std::vector<std::string>& w)
    {
@@ -854,6 +867,7 @@ int main(int argc, char** argv)
       catch (const Bad& b) { std::cout << "R bad\n"; out_impl.push_back("#bad " + std::to_string(cx->opno) + " " + b.why); }
       catch (const std::logic_error&) { std::cout << "R !L\n"; }
       catch (const std::exception& e) { std::cout << "R !X(" << verif::demangle(typeid(e).name()) << ")\n"; }
+      if (w[0] != "obs" and w[0] != "obs_all" and w[0] != "burst") observe_new();
       for (auto& s : out_impl) std::cout << s << '\n';
       std::cout << "." << cx->opno << '\n';             // end of the output of this op
       ++cx->opno;
